@@ -134,12 +134,13 @@ PLAN["C14"] = dict(
 
 PLAN["C18"] = dict(
     level="fault_enumeration",
-    engines=["panic injected at every callback invocation of a dry run (native, AddressSanitizer)"],
+    engines=["panic injected at every callback invocation of a dry run (native, AddressSanitizer)", "panicking compute with 1-3 readers frozen inside the tree bin (per-thread gates)", "free-run rounds in which some callbacks panic while other threads use the map: inspector, linearizability, ledger at quiescence; a worker whose threads all sleep is a verdict (native)"],
     assumptions=["exhaustive over the injection points of each prepared map; the prepared maps are a random sample"],
-    require={"injections": 200, "injections_on_map_with_tree_bin": 20, "injections_during_resize_key_bin_already_forwarded": 10},
+    require={"injections": 200, "injections_on_map_with_tree_bin": 20, "injections_during_resize_key_bin_already_forwarded": 10, "injections_with_readers_inside_the_tree": 50, "concurrent_rounds_with_injected_panics": 200},
     jobs=lambda t: [
         J("inject", "native", ["c18"], shards=8, budget_s=q(t, 25, 400)),
         J("inject-asan", "asan", ["c18"], shards=8, budget_s=q(t, 30, 400), leaks=False),
+        J("concurrent", "native", ["c18", "--part", "concurrent", "--rounds", q(t, 600, 4000000)], shards=8, budget_s=q(t, 20, 300), parallel=8, blocked_is_violation=True),
     ],
 )
 
